@@ -179,7 +179,7 @@ Fixpoint read_symbols_loop (fuel : nat) (r : rstate) (acc : list text) : rres (l
     end
   end.
 Definition read_symbols (fuel : nat) (r : rstate) : rres (list text) :=
-  if negb (r_type r =? TList) then (r, Ok []) else
+  if negb (r_type r =? TList) || r_is_null r then (r, Ok []) else     (* null.list: treated as empty *)
   match r_step_in r with
   | (r, Ok true) =>
     match read_symbols_loop fuel r [] with
@@ -296,7 +296,8 @@ Definition read_imports (fuel : nat) (r : rstate) : rres (list imp) :=
       match r_value r with
       | RNil => None                                        (* null.symbol: not the append marker *)
       | RSymbol t =>
-        if (tk_sid t =? 3)%Z then
+        if (tk_sid t =? 3)%Z
+           || match tk_text t with Some x => list_eqb x (s "$ion_symbol_table"%string) | None => false end then
           match r_lst r with
           | None | Some LSys => Some (r, Ok [])
           | Some (LTab t0) =>
